@@ -93,7 +93,10 @@ def run_point(pt, route, rng, layout, tmpdir, intern):
     # getSimulation(keep_unsynchronized=1) deliberately changes the keep_unsynchronized flag and
     # synchronises the particle array for output while keeping the unsynchronised cache; for that
     # route "bit-for-bit" is a statement about the trajectory: digest of (t, synchronised particles)
-    traj_only = route == "getsim" and pt["integ"] in ("whfast", "saba") and pt["safe"] == 0
+    # (with variational particles WHFast synchronises after every step and getSimulation leaves the stored flag alone:
+    #  the full persisted content must agree there)
+    keepflag = route == "getsim" and pt["integ"] in ("whfast", "saba") and pt["safe"] == 0
+    traj_only = keepflag and not pt.get("var", 0)
     if route == "getsim" and pt["integ"] in ("eos", "mercurius") and pt["safe"] == 0:
         route = "archive"   # getSimulation synchronises; EOS/MERCURIUS have no keep_unsynchronized: not promised bit-wise
 
@@ -122,7 +125,7 @@ def run_point(pt, route, rng, layout, tmpdir, intern):
             os.remove(fn)
         sim.save_to_file(fn)
         sa = rebound.Simulationarchive(fn)
-        B = sa.getSimulation(sim.t, mode="snapshot", keep_unsynchronized=1) if pt["integ"] in ("whfast", "saba") and pt["safe"] == 0 else sa.getSimulation(sim.t, mode="snapshot")
+        B = sa.getSimulation(sim.t, mode="snapshot", keep_unsynchronized=1) if keepflag else sa.getSimulation(sim.t, mode="snapshot")
         del sa
         os.remove(fn)
         W.reattach(sim, B, layout)
